@@ -13,10 +13,10 @@ from props import graphlib as gl
 META = {
     "technique": "TLA+ A/B-layer specification of the graph walk: TLC-enumerated graphs x start certificates replayed on the real WalkChains / WalkChainsAsync with every result judged by TLC against the path-set definition, TLC model check of the producer/channel/consumer processes (safety and liveness), TLC evaluation of the coded and the fixed depth-first walk against the path-set definition, TLC validation of walks recorded on seeded random PKIs",
     "text": "Walk.tla defines Permitted (lenient reading) and Required (strict reading) root-terminated paths of a walk graph and judges an observed result: Required <= returned <= Permitted, no duplicates, channel closed, no panic; each rejected chain is classified (revisit, non-CA, path length, through a root, too long, ...). WalkGen.tla enumerates every sub-graph x root set x start certificate (in or out of the graph) of the catalogue universes (chains, cross-signs, rollovers, self-signed non-roots, path-length and CA-flag variants, cycles, dangling roots, depth-limit lines) and TLC checks on each that the walk with the proposed fix satisfies the judge and predicts what the walk as coded does. The harness builds each graph from real certificates, runs WalkChains and WalkChainsAsync for channel sizes 1,2,3,default with eager and lazy consumers, and TLC judges every distinct observation; seeded random PKIs of 10-30 certificates are judged the same way. WalkImpl.tla model-checks the send/close/receive protocol for every interleaving. Bounded-exhaustive over small graphs plus sampled larger ones.",
-    "note": "Trusted: TLC, Go toolchain, crypto/x509 and crypto/ed25519 for certificate creation and concretisation checks, the accessor file verif_graph.go (the judged graph is the real graph as observed through it). Goroutine interleavings of the real WalkChainsAsync are exercised by pacing only (consumer eager/lazy), not enumerated; the enumeration of interleavings is at model level. Three clauses of the statement are read both ways (path-length counting of self-issued certificates, the root's own path-length limit, roots without usable issuer) - see design_notes/C11.md.",
+    "note": "Trusted: TLC, Go toolchain, crypto/x509 and crypto/ed25519 for certificate creation and concretisation checks, the accessor file verif_graph.go (the judged graph is the real graph as observed through it). Goroutine interleavings of the real WalkChainsAsync are exercised by pacing only (consumer eager/lazy), not enumerated; the enumeration of interleavings is at model level. Three clauses of the statement are read both ways (path-length counting of self-issued certificates, the root's own path-length limit, a root edge issued by a node already on the path) - see design_notes/C11.md; a root edge whose issuer is absent from the graph is required to be reached (known finding C11-root-edge-issuer-absent, fixed in /repo 59a173b).",
 }
 
-QUICK_NAMES = ["chain3", "selfx", "cross", "pathlen", "dangling", "nonca4"]
+QUICK_NAMES = ["chain3", "selfx", "cross", "pathlen", "dangling", "nonca4", "rootdang"]
 THOROUGH_NAMES = gl.SMALL + gl.FIVE + gl.SIX
 
 
@@ -51,24 +51,27 @@ def run(ctx):
     r = ctx.tlc("WalkGen", "Walk_gen.cfg", workers=1, timeout=3000,
                 subst={"NAMES": gl.tla_set(names), "LINES": gl.tla_set(["line11"] if quick else gl.LINES),
                        "MAXROOTS": 2 if quick else 3},
-                label="WalkGen: cases + coded walk refines Walk")
+                label="WalkGen: cases + coded walk against Walk")
     cases = read_ndjson(ctx.specfile("walk_cases.ndjson"))
     if not cases:
         raise Machinery("WalkGen produced no cases")
-    pred, old = {}, {}
+    pred, old, old2 = {}, {}, {}
     for c in cases:
         for w in c["pred"]:
             pred[w] = pred.get(w, 0) + 1
         for w in c["old"]:
             old[w] = old.get(w, 0) + 1
+        for w in c["old2"]:
+            old2[w] = old2.get(w, 0) + 1
     if pred:
         ctx.note("design-level: the B model of the walk as coded leaves the A layer on %d of %d cases: %s (a prediction; "
                  "the verdict comes only from the real code)" % (sum(1 for c in cases if c["pred"]), len(cases),
                                                                  json.dumps(pred, sort_keys=True)))
     else:
-        ctx.note("B model of the walk as coded (WalkDfs.DfsCoded) satisfies the A layer on all %d cases; the pre-fix "
-                 "model (DfsPreFix) deviates on %d: %s" % (len(cases), sum(1 for c in cases if c["old"]),
-                                                         json.dumps(old, sort_keys=True)))
+        ctx.note("B model of the walk as coded (WalkDfs.DfsCoded) satisfies the A layer on all %d cases; the earlier "
+                 "revisions deviate: DfsPreFix on %d %s, DfsPreFix2 on %d %s"
+                 % (len(cases), sum(1 for c in cases if c["old"]), json.dumps(old, sort_keys=True),
+                    sum(1 for c in cases if c["old2"]), json.dumps(old2, sort_keys=True)))
 
     binary = ctx.gobuild("c11")
     catalog = ctx.specfile("graph_catalog.ndjson")
@@ -110,13 +113,13 @@ def run(ctx):
         raise Machinery("no observations")
     if allrecs:
         need = {"required-path", "two-required-paths", "no-path", "synthesised-start-with-path", "path-of-max-length",
-                "path-of-4"}
+                "path-of-4", "path-to-root-without-issuer"}
         if ctx.last_cover is None or not need <= ctx.last_cover:
             vacuous = "vacuous: coverage tags never reached: %s" % sorted(need - (ctx.last_cover or set()))
         ctx.cov["cover_tags"] = sorted(ctx.last_cover or [])
         if ctx.last_open:
             ctx.note("%d accepted observations on which the walk omits paths that only the lenient reading permits "
-                     "(root without usable issuer / root's own path length / self-issued counting)" % ctx.last_open)
+                     "(root issued by a node on the path / root's own path length / self-issued counting)" % ctx.last_open)
     drift = 0
     why_by_index = {}
     for i, why, d in rej:
@@ -196,7 +199,10 @@ def selftest(ctx, recs):
     from vlib import load_known, match_known
     kf = load_known("C11")
     for why in (["extra:revisit"], ["extra:revisit-adjacent-self-signed", "missing-chain"],
-                ["extra:revisit-adjacent-self-signed", "extra:through-root"], ["duplicate-chain"]):
+                ["extra:revisit-adjacent-self-signed", "extra:through-root"], ["duplicate-chain"], ["missing-chain"],
+                ["missing-chain", "missing:root-edge-issuer-absent"],
+                ["extra:non-ca", "missing:root-edge-issuer-absent"],
+                ["channel-not-closed", "missing:root-edge-issuer-absent"]):
         if match_known(kf, {"sig": {"kind": "walk-rejected", "why": why}}) is not None:
             raise Machinery("selftest: known-finding matcher is too broad, it matches %s" % why)
 
